@@ -129,6 +129,7 @@ func TestC17(t *testing.T) {
 		})
 	}
 	RunProps(t, rpC17(MyTypes()))
+	t.Run("buffer-geometry", runC17Geo)
 }
 
 func rpC17(types []string) (out []RProp) {
@@ -614,4 +615,57 @@ func rpC18() (out []RProp) {
 func init() {
 	RapidProps["C17"] = func() []RProp { return rpC17(TypeNames) }
 	RapidProps["C18"] = rpC18
+}
+
+// CaseC17Geo: encode into a small buffer that has been written almost to the end of its array and partly consumed
+// (read offset > 0, a few bytes of real tail space): the geometry of a session send buffer that is drained from the
+// front while messages are appended. Encode must return normally whatever the geometry.
+type CaseC17Geo struct {
+	Type string `json:"type"`
+	Key  int    `json:"key,omitempty"`
+	Cap  int    `json:"cap"`
+	Tail int    `json:"tail"` // free bytes between the written content and the end of the array
+	Off  int    `json:"off"`  // bytes already consumed
+}
+
+func oracleC17Geo(c *CaseC17Geo) *Failure {
+	obj := ToStruct(Skeleton(c.Type, c.Key))
+	buf := bytes.NewBuffer(make([]byte, 0, c.Cap))
+	buf.Write(bytes.Repeat([]byte{0xEE}, c.Cap-c.Tail))
+	buf.Next(c.Off)
+	unread := append([]byte{}, buf.Bytes()...)
+	err, pan, _ := safely(func() error { return EncodeAny(obj, buf) })
+	if pan != nil {
+		return failf("C17/"+c.Type+"/panic", "Encode into a %d-byte buffer holding %d unread bytes after %d consumed ones (%d bytes of tail space) panicked: %v", c.Cap, len(unread), c.Off, c.Tail, pan)
+	}
+	if err == nil && (buf.Len() < len(unread) || !bytes.Equal(buf.Bytes()[:len(unread)], unread)) {
+		return failf("C17/"+c.Type+"/lost-earlier-bytes", "Encode into a %d-byte buffer with %d unread bytes after %d consumed ones returned nil but the unread bytes are no longer in front of what it appended", c.Cap, len(unread), c.Off)
+	}
+	return nil
+}
+
+func init() { registerReplay("c17geo", oracleC17Geo) }
+
+func runC17Geo(t *testing.T) {
+	n := int64(0)
+	for _, tn := range MyTypes() {
+		for _, cp := range []int{24, 32, 64} {
+			for tail := 0; tail <= 18 && tail < cp-2; tail++ {
+				for _, off := range []int{1, 4, cp / 2, cp - tail - 1} {
+					if off >= cp-tail || t.Failed() {
+						continue
+					}
+					c := &CaseC17Geo{Type: tn, Cap: cp, Tail: tail, Off: off}
+					n++
+					if f := oracleC17Geo(c); f != nil {
+						Col.Violation("C17", "c17geo", "geo/"+tn, f.Signature, f.Msg, "enumeration", c)
+						t.Errorf("%s: %s", f.Signature, f.Msg)
+					}
+				}
+			}
+		}
+		Col.Program(tn)
+	}
+	Col.Bulk(n, n, "buffer-geometry: small array, read offset > 0, 0..18 bytes of tail space")
+	Col.MarkExhaustive("every type x array size {24,32,64} x tail space 0..18 x consumed {1,4,half,all but one}")
 }
